@@ -71,7 +71,9 @@ func normalizeOrgInbox(i *org.Inbox) {
 	if i == nil || i.Code == cbc.CodeEmpty {
 		return
 	}
-	if orgInboxRegexpSchemeCode.MatchString(i.Code.String()) {
+	// only when no scheme is known yet: the rest of the code may itself look
+	// like a scheme followed by a code
+	if i.Scheme == cbc.CodeEmpty && orgInboxRegexpSchemeCode.MatchString(i.Code.String()) {
 		i.Scheme = cbc.Code(i.Code.String()[0:4])
 		i.Code = cbc.Code(i.Code.String()[5:])
 	}
